@@ -73,6 +73,10 @@ ElemKey(l, id, sfx, subvals, dims) ==
            THEN [v |-> Err(ESubscript), d |-> d2, key |-> <<>>]
       ELSE [v |-> MkI(0), d |-> d2, key |-> Key(l, id, sfx, ns)]
 
+\* an error raised while a user function's body is being evaluated: the manual does not say
+\* which line it is reported in (the calling statement's or the DEF's); e = 1 marks it
+InFn(v) == IF IsErr(v) THEN [v EXCEPT !.e = 1] ELSE v
+
 RECURSIVE Eval(_, _, _, _, _), EvalList(_, _, _, _, _, _)
 
 \* locals: function from <<id, sfx>> of a parameter to its bound value (FN frames)
@@ -114,15 +118,15 @@ Eval(e, st, d, locals, depth) ==
          ELSE IF e.id \notin DOMAIN st.fns THEN R(Err(EUndefFn), rs.d)
          ELSE LET f == st.fns[e.id] IN
               IF Len(f.ps) # Len(rs.vs) THEN R(Err(EIllegalFn), rs.d)
-              ELSE IF depth > Cardinality(DOMAIN st.fns) THEN R(Err(EOutOfMemory), rs.d)
+              ELSE IF depth > Cardinality(DOMAIN st.fns) THEN R(InFn(Err(EOutOfMemory)), rs.d)
               ELSE LET bound == [i \in 1..Len(f.ps) |->
                                    Assign(TypeOfName(f.ps[i].l, f.ps[i].sfx, st.deft), rs.vs[i])]
                        badb  == {i \in 1..Len(f.ps) : IsBad(bound[i])}
                        fbb   == IF badb = {} THEN 0 ELSE CHOOSE i \in badb : \A j \in badb : i <= j
                        loc   == [p \in {<<f.ps[i].id, f.ps[i].sfx>> : i \in 1..Len(f.ps)} |->
                                    bound[CHOOSE i \in 1..Len(f.ps) : <<f.ps[i].id, f.ps[i].sfx>> = p]]
-                   IN  IF fbb # 0 THEN R(bound[fbb], rs.d)
-                       ELSE Eval(f.body, st, rs.d, loc, depth + 1)
+                   IN  IF fbb # 0 THEN R(InFn(bound[fbb]), rs.d)
+                       ELSE LET rb == Eval(f.body, st, rs.d, loc, depth + 1) IN R(InFn(rb.v), rb.d)
 
 \* evaluate es[i..] left to right; stop at the first bad value
 EvalList(es, i, st, d, locals, depth) ==
